@@ -115,6 +115,14 @@ def gen_checks(summary):
     t += '/-! generated: the classes whose regenerated programs pass `regularCheck` -/\nnamespace Blf.Gen\nopen Blf\n\n'
     t += 'def exactLayouts : List (Codec × Layout) := [' + ', '.join('(%s, %s_layout)' % (n, n) for n in exact) + ']\n\n'
     t += 'theorem exact_all : (exactLayouts.all fun p => regularCheck p.1 p.2) = true := by decide +kernel\n\n'
+    # a concrete non-trivial object for the non-vacuity examples of the property files
+    smp = None
+    for c in summary['classes']:
+        if c['name'] == 'AppText' and res.get('AppText'):
+            ids = [i for i, f in enumerate(c['fields']) if f['name'] == 'text']
+            if ids:
+                smp = '(AppText, AppText_layout, AppText.fresh.setBuf %d [104, 101, 108, 108, 111])' % ids[0]
+    t += 'def sample : Option (Codec × Layout × Obj) := ' + ('some ' + smp if smp else 'none') + '\n\n'
     t += 'end Blf.Gen\n'
     write_if_changed(os.path.join(GEN, 'Exact.lean'), t)
     write_if_changed(os.path.join(GEN, 'Checks.lean'), 'import Blf.Gen.Exact\n')
